@@ -47,6 +47,8 @@ def task_spec(draw):
         s['fault'] = draw(st.sampled_from(FAULTS))
         if s['fault'] in ('exc:tin', 'exc:ain'):
             s['stage_in'] = True        # so that the handler is reached
+    if draw(st.integers(0, 4)) == 0:
+        s['soe'] = True          # stage_on_error with a client-side output transfer
     if draw(st.integers(0, 6)) == 0:
         s['ranks'] = 2          # always fits: every layout has >= 2 cores
     return s
@@ -129,6 +131,8 @@ def run_case(case):
             res.label('fault=%s' % (s.get('fault') or ('exit_nonzero' if s.get('exit') else 'none')))
     if sim.cancel_req:
         res.label('cancel')
+    if any(s.get('soe') and (s.get('exit') or s.get('fault')) for b in bulks for s in b):
+        res.label('stage_on_error_with_failure')
     if case.get('late_add'):
         res.label('pilot_added_after_submission')
         if sum(1 for b in bulks if any(s.get('named') for s in b)) >= 2:
